@@ -9,6 +9,7 @@ for sha in $(git -C "$W" log --reverse --format='%h' HEAD --not $(git -C /repo r
   subj=$(git -C "$W" log -1 --format=%s $sha)
   # skip commits whose patch is already applied (cherry-picked from /repo into the worktree)
   if git -C /repo log --format=%s | grep -qxF "$subj"; then echo "skip (already in main): $sha $subj"; continue; fi
+  case " ${SKIP:-} " in *" $sha "*) echo "skip (SKIP list): $sha $subj"; continue ;; esac
   case "$subj" in
     fix:*) ;;
     *) echo "NOT a fix: commit, skipping: $sha $subj"; continue ;;
